@@ -4,18 +4,18 @@ go 1.24.0
 
 require (
 	github.com/pion/ice/v4 v4.0.0
+	github.com/pion/logging v0.2.4
+	github.com/pion/stun/v3 v3.1.7
+	github.com/pion/transport/v4 v4.1.0
+	github.com/pion/turn/v5 v5.0.13
 	golang.org/x/tools v0.29.0
 )
 
 require (
 	github.com/google/uuid v1.6.0 // indirect
 	github.com/pion/dtls/v3 v3.1.5 // indirect
-	github.com/pion/logging v0.2.4 // indirect
 	github.com/pion/mdns/v2 v2.1.0 // indirect
 	github.com/pion/randutil v0.1.0 // indirect
-	github.com/pion/stun/v3 v3.1.7 // indirect
-	github.com/pion/transport/v4 v4.1.0 // indirect
-	github.com/pion/turn/v5 v5.0.13 // indirect
 	github.com/wlynxg/anet v0.0.5 // indirect
 	golang.org/x/crypto v0.48.0 // indirect
 	golang.org/x/mod v0.22.0 // indirect
